@@ -89,6 +89,21 @@ func (f *Frame) execCall(v ssa.Value, c *ssa.CallCommon, st *State) {
 	root.callSeq++
 	site := root.callSeq
 
+	// C12: functions claimed deterministic must not reach a source of local nondeterminism
+	if (name == "time.Now" || name == "time.Since" || name == "os.Getenv" || name == "os.Hostname" || strings.HasPrefix(name, "math/rand.") || strings.HasPrefix(name, "crypto/rand.")) && f.discovering == nil {
+		if tc := f.topContract(); tc != nil {
+			for _, p := range tc.Props {
+				if p == "C12" {
+					vc.nondetSites = append(vc.nondetSites, name)
+					vc.addObl(&Obligation{
+						Name: fmt.Sprintf("%s/deterministic@%s#%d", canonName(root.fn), name, site),
+						Kind: "determinism", Props: tc.Props, PC: st.pc, Goal: "false",
+						Src: "no reachable call to " + name + " (local clock / randomness / environment) in a function on the consensus path",
+					})
+				}
+			}
+		}
+	}
 	// process termination: the path ends here (like a panic)
 	if name == "os.Exit" || name == "log.Fatal" || name == "log.Fatalf" || name == "log.Fatalln" {
 		f.panics = append(f.panics, st.pc)
